@@ -1,18 +1,18 @@
 CONSTANT Threads = {"t1", "t2", "t3"}
-CONSTANT Keys = {"k1", "k2", "k3"}
-CONSTANT CvKeys = {"k1", "k3"}
+CONSTANT Keys = {"k1", "k2"}
+CONSTANT CvKeys = {"k1"}
 CONSTANT RevKeys = {"k2"}
 CONSTANT DocOf <- MCDocOf
 CONSTANT Contents = {"c1", "c2"}
 CONSTANT Configs <- Cf3
 CONSTANT Fails = {"ok", "fd"}
-CONSTANT FailKeys = {"k1", "k2", "k3"}
+CONSTANT FailKeys = {"k1", "k2"}
 CONSTANT OpSet = {"Get", "GetActive", "Put", "Upsert", "Remove", "Peek"}
 CONSTANT FreePut = TRUE
-CONSTANT MaxOps = 2
-CONSTANT MaxSteps = 4
+CONSTANT MaxOps = 1
+CONSTANT MaxSteps = 3
 CONSTANT Pool = 5
-CONSTANT SeqPrefix = 1
+CONSTANT SeqPrefix = 0
 SPECIFICATION Spec
 VIEW view
 INVARIANT Bounded
